@@ -25,6 +25,18 @@ FEATS = [
 
 def worker(ctx, job):
     from vf.flo import runner, monitors, refint, compare
+    # transit actions of a refused transition: marker-guarded transitions into entry-guarded frames (the marker rule
+    # model of the C20 check decides; a transit action run by a refused attempt resets the mark and shows as a later
+    # transition that is not taken / taken wrongly)
+    from vf.checks import c20
+    for case in job.get("gated", []):
+        nf = len(ctx.fails)
+        c20.check_case(ctx, case)
+        for f in ctx.fails[nf:]:
+            f["key"] = "refused-transition/" + f["key"]
+        for k in list(ctx.fail_counts):
+            if k.startswith("marker-condition/"):
+                ctx.fail_counts["refused-transition/" + k] = ctx.fail_counts.get("refused-transition/" + k, 0) + ctx.fail_counts.pop(k)
     for seed, fi in job["items"]:
         rng = random.Random(seed)
         prog = gen.gen_program(rng, gen.pickfeat(FEATS, fi))
@@ -64,7 +76,11 @@ def worker(ctx, job):
 def run(ctx):
     n = ctx.pick(400, 24000)
     items = [(ctx.rng.randrange(1 << 30), i % gen.nfeats(FEATS, ctx)) for i in range(n)]
-    ctx.shard([{"items": items[i::16]} for i in range(16)], timeout=ctx.pick(300, 1500))
+    from vf.checks import c20
+    opts = c20.need_opts()
+    gated = [c20.random_case(ctx.rng, opts, gated=True) for _ in range(ctx.pick(320, 6400))]
+    ctx.shard([{"items": items[i::16], "gated": gated[i::16]} for i in range(16)], timeout=ctx.pick(300, 1500))
+    ctx.floor("guard_refused_marker_transition", 30)
     ctx.floor("attempts_refused", 50)
     ctx.floor("attempts_admitted", 50)
     ctx.floor("guarded_enters", 50)
